@@ -489,9 +489,93 @@ def _id_fn(x, *others, block_id=None):
     return out + sum((i + 1) * l for i, l in enumerate(block_id))
 
 
+_SBLOG = []
+
+
+def _single_block_second(x, v, block_info=None):
+    """Kernel for a second input that ADVERTISES one block: it is handed whole to every call and sliced here by the
+    first input's array location.  Logs what it was told about v and what it was given."""
+    x = np.asarray(x)
+    v = np.asarray(v)
+    if block_info is None:
+        return x
+    info1 = block_info.get(1)
+    loc = block_info[0]["array-location"][-1]
+    _SBLOG.append({"phase": rec.PHASE["now"], "v_shape": list(v.shape), "told_shape": [int(hi) - int(lo) for lo, hi in info1["array-location"]] if info1 else None, "told_loc": [list(p) for p in info1["array-location"]] if info1 else None, "told_nchunks": list(info1["num-chunks"]) if info1 else None})
+    if info1 is not None and v.shape == tuple(info1["shape"]):
+        return x + v[loc[0] : loc[1]]
+    return x
+
+
+def judge_single_block_second(rng, ctx):
+    """A block_info consumer with two inputs; the second one advertises ONE block (so it is broadcast whole to every
+    call) but its expression settles on as many blocks as the first input has along that axis."""
+    import dask_array as da
+    from vf.oracles import same
+
+    del _SBLOG[:]
+    rec.PHASE["now"] = "build"
+    k = rng.randint(2, 5)
+    sizes = [rng.randint(1, 5) for _ in range(k)]
+    L = sum(sizes)
+    lead = rng.choice([0, 0, rng.randint(1, 3)])
+    shape = ((lead,) if lead else ()) + (L,)
+    a = (np.arange(int(np.prod(shape)), dtype="f8") * 0.5 + 1).reshape(shape)
+    x = da.from_array(a, chunks=(((lead,),) if lead else ()) + (tuple(sizes),))
+    off = rng.randint(1, 4)
+    wn = np.arange(L + 2 * off, dtype="f8") * 2
+    un = np.arange(L + 2 * off, dtype="f8") + 100
+    w = da.from_array(wn, chunks=((off + sizes[0],) + tuple(sizes[1:-1]) + (sizes[-1] + off,),))
+    u = da.from_array(un, chunks=((1, L + 2 * off - 1),))
+    v = (u + w)[off : off + L] * 2
+    vnp = (un + wn)[off : off + L] * 2
+    case = {"producer": "single_block_second", "opts": {"k": k, "lead": lead, "off": off}, "shape": list(shape), "chunks": [list(map(float, c)) for c in x.chunks]}
+    ctx.current_case = case
+    problems = []
+    adv = v.chunks
+    try:
+        settled = v.optimize().chunks
+    except Exception:
+        settled = adv
+    if len(adv[0]) != 1 or len(settled[0]) == 1:
+        ctx.count("single_block_second_not_drifting")
+        return case, problems
+    case["settled_differs"] = True
+    ctx.count("settled_layout_differed_from_advertised")
+    try:
+        y = da.map_blocks(_single_block_second, x, v, dtype="f8")
+    except Exception as ex:
+        ctx.tab("refused_at_build", f"single_block_second:{type(ex).__name__}:{exc_site(ex)}")
+        return case, problems
+    with rec.phase("execute"):
+        try:
+            got = y.compute()
+        except Exception as ex:
+            problems.append(("compute_raises", f"map_blocks(f, x, v) with v advertising one block raised {short_tb(ex, 8)}", f"single_block_second:raise:{type(ex).__name__}:{exc_site(ex)}:{msg_key(ex)}"))
+            return case, problems
+    calls = [c for c in _SBLOG if c["phase"] == "execute"]
+    ctx.count("invocations_logged", len(calls))
+    ctx.count("single_block_second_invocations", len(calls))
+    for c in calls:
+        if c["told_shape"] != [L] or c["told_nchunks"] != [1] or c["told_loc"] != [[0, L]]:
+            problems.append(("input_info_mismatch", f"block_info[1] = shape {c['told_shape']} location {c['told_loc']} num-chunks {c['told_nchunks']}; v was advertised as one block [(0, {L})]", "single_block_second:input_info_mismatch"))
+            break
+        if c["v_shape"] != [L]:
+            problems.append(("block_shape_mismatch", f"block_info[1] describes v as one block of shape ({L},) but the function was given a block of shape {tuple(c['v_shape'])}", "single_block_second:block_shape_mismatch"))
+            break
+    why = same(a + vnp, got, 1, float(np.abs(a + vnp).max()), check_dtype=False)
+    ctx.count("values_compared")
+    if why and not problems:
+        problems.append(("values", f"single_block_second: result differs from NumPy: {why}", f"single_block_second:values:{why.split()[0]}"))
+    return case, problems
+
+
 def run_one(rng, ctx):
     del _IDLOG[:]
-    if rng.random() < 0.4:
+    r_ = rng.random()
+    if r_ < 0.08:
+        case, problems = judge_single_block_second(rng, ctx)
+    elif r_ < 0.45:
         case, problems = judge_axes(rng, ctx)
     else:
         case, problems = judge(rng, ctx)
